@@ -38,7 +38,7 @@ HasHostile(v) == CASE v.t = "str" -> HostileStr(v)
                    [] v.t = "obj" -> \E i \in DOMAIN v.k : v.k[i] = "<<" \/ HasHostile(v.v[i])
                    [] OTHER -> FALSE
 YamlEmitter(line, failed) ==
-   /\ failed \in {"ja", "jb", "ji", "jyu", "jo"}
+   /\ failed \in {"ja", "jb", "ji", "jk", "jyu", "jo"}
    /\ "j2" \in DOMAIN line.obs /\ line.obs.j2.ok /\ line.obs.j2.v = J1(line)
    /\ HasHostile(line.in)
    /\ ~line.obs[failed].ok /\ line.obs[failed].err = "load"
